@@ -73,6 +73,16 @@ def tasks(tier, seed):
     for comp in COMPUTERS[:3]:
         for K in F.sample([k for k in fam4 if len(k) < len(F.extras(4))], 32 if tier == "quick" else 200, seed, "c08ops"):
             add("ops", 4, K, comp, ops="ops0")
+    # several registered computers used in ONE process on bit-identical knowledge: each must still give ITS bounds (for the two plain
+    # superadditive computers the reference is the closed form of the definition; hidden game superadditive, not necessarily monotone)
+    for first in ("sam_apx_1", "sam_apx_10", "superadditive"):
+        for second in ("superadditive", "superadditive_cached"):
+            if first == second:
+                continue
+            for K in fam3:
+                add("cross", 3, K, second, first=first)
+            for K in F.sample([k for k in fam4 if len(k) < len(F.extras(4))], 12 if tier == "quick" else 100, seed, "c08cross"):
+                add("cross", 4, K, second, first=first)
     # environment undo
     for comp in ["superadditive", "superadditive_cached", "sam_apx_1"]:
         for gap in ["exploitability", "l1_norm", "l2_norm", "linf_norm"]:
@@ -128,6 +138,10 @@ def setup(params, inp, lg):
             inp.real(nm)
     if _needs_sam(params):
         return F.sam_constraints(v, n, lg)
+    if params["kind"] == "cross":
+        # the closed form is the definition of the bounds for superadditive known values (for other values a known coalition's own
+        # value and its best partition differ, and the definition says nothing)
+        return F.sa_constraints(v, n, lg)
     return []
 
 
@@ -182,6 +196,14 @@ def scenario(pk, params, inp):
                 g.compute_bounds()
                 res["p2"] = _read(pk, g, n)
         return res
+    if params["kind"] == "cross":
+        g1 = pk.game.IncompleteCooperativeGame(n, pk.bounds.BOUNDS[params["first"]])
+        g1.set_known_values([v[S] for S in known], [C(S) for S in known])
+        g1.compute_bounds()
+        g2 = pk.game.IncompleteCooperativeGame(n, comp)
+        g2.set_known_values([v[S] for S in known], [C(S) for S in known])
+        g2.compute_bounds()
+        return {"second": _read(pk, g2, n)}
     if params["kind"] == "ops":
         direct = pk.game.IncompleteCooperativeGame(n, comp)
         direct.set_known_values([v[S] for S in known], [C(S) for S in known])
@@ -281,6 +303,18 @@ def claims(params, inp, out, lg):
     if params["kind"] == "stale":
         return _eq_tables(lg, out["p"], out["q"], n, "stale-independent") + \
             _eq_tables(lg, out["p"], out["p2"], n, "idempotent")
+    if params["kind"] == "cross":
+        v = _v(params, inp)
+        known = set(F.minimal(n)) | set(params["K"])
+        zero = lg.const(0)
+        cl = []
+        for S in range(2 ** n):
+            if S in known:
+                continue
+            cl.append((f"own-bounds-after-another-computer:S={S}", lg.And(lg.eq(out["second"]["L"][S], F.lref(known, S, v, zero)),
+                                                                        lg.eq(out["second"]["U"][S], F.uref(known, S, v, n, zero))),
+                       "C08/bounds-of-another-computer"))
+        return cl
     if params["kind"] == "ops":
         return _eq_tables(lg, out["direct"], out["hist"], n, "history-free") + _eq_tables(lg, out["hist"], out["hist2"], n, "idempotent")
     if params["kind"] == "order":
@@ -308,6 +342,8 @@ def canaries(params, inp, out, lg):
             return []
         S = unk[0]
         return [(f"canary-result-is-stale:S={S}", lg.eq(out["p"]["L"][S], inp.real(f"pL{S}")))]
+    if params["kind"] == "cross":
+        return []
     if params["kind"] in ("order", "ops"):
         return [("canary-upper-equals-lower", lg.And([lg.eq(out["direct"]["L"][S], out["direct"]["U"][S]) for S in range(2 ** n)]))]
     return [("canary-reward-positive", lg.gt(out["before"]["reward"], 1))]
